@@ -283,3 +283,22 @@ _ROUND5 = {
 for _k, _v in _ROUND5.items():
     if _k in CHECKS:
         CHECKS[_k]['text'] = CHECKS[_k]['text'].rstrip() + ' ' + _v
+
+
+# ---- rules added in the sixth round
+_ROUND6 = {
+    'C01': 'Round 6: DURATION sub-tokens are built by the duration rule only; nothing but the category predicate filters a sub-token list (R12).',
+    'C03': 'Round 6: the token of a cell comes from the importer of its own spine (C18.R7 as R13).',
+    'C05': 'Round 6: composed sub-token filters (R5 subtoken-extra-filter).',
+    'C06': 'Round 6: the caller\'s selection is only read (R7); HEADERS holds every header the importer dispatches on (R8).',
+    'C07': 'Round 6: copied nodes keep their stage; no identity comparison of numbers in the range arithmetic.',
+    'C09': 'Round 6: no memoised function returns a mutable pitch (R4).',
+    'C11': 'Round 6: valid does not filter the closure difference again (R5); no shared mutable default (R6).',
+    'C12': 'Round 6: the importers of note spines (**kern, **root) let parse errors out (R3).',
+    'C14': 'Round 6: every token is built by the call that imports its cell (R5); an in-place sort of an aliased list is an effect.',
+    'C17': 'Round 6: token queries leave nothing behind (R6); monophony counts the **kern spines (R5).',
+    'C20': 'Round 6: makedirs only when the path has a directory part (R3).',
+}
+for _k, _v in _ROUND6.items():
+    if _k in CHECKS:
+        CHECKS[_k]['text'] = CHECKS[_k]['text'].rstrip() + ' ' + _v
